@@ -556,6 +556,9 @@ pub fn c16_lossless_total(input: Vec<u8>) -> (out: (Vec<u8>, usize, usize))
     (acc, t.raw.end, n)
 }
 
+// ---- PINS: functions of /repo this unit (or the property it serves) only ASSUMES something about — a hand-written shim stands for them, or nothing at
+// all does. The assumption was made for one text of each; the token hash ties it to that text: a change makes the unit UNDECIDED (exit 2), never OK.
+//@@ pin src/html/mod.rs :: impl Tokenizer / fn new_fragment = 9d6a8b571410
 //@@ strlits
 
 } // verus!
